@@ -288,6 +288,8 @@ type c12FieldVerdict struct {
 // inverse (identity, width-preserving conversions, tabled time wrappers that
 // keep nanoseconds, element-wise nested codecs).
 func c12CheckPair(c *kit.Ctx, p *c12Pair, codecs map[types.Object]*c12Codec) ([]c12FieldVerdict, string) {
+	p.Enc = c12DropAliases(c, p.Enc, codecs)
+	p.Dec = c12DropAliases(c, p.Dec, codecs)
 	if len(p.Enc) != 1 || len(p.Dec) != 1 {
 		return nil, fmt.Sprintf("pair %s has %d encoder(s) and %d decoder(s) (exactly one each is understood)", p.name(), len(p.Enc), len(p.Dec))
 	}
@@ -389,8 +391,8 @@ func c12CheckPair(c *kit.Ctx, p *c12Pair, codecs map[types.Object]*c12Codec) ([]
 			continue
 		}
 		// transforms
-		ex := c12ClassifyInl(c, esrc.Steps, g.Type(), m.Type(), true, codecs)
-		dx := c12ClassifyInl(c, dsrc.Steps, m.Type(), g.Type(), false, codecs)
+		ex := c12ClassifyInl(c, enc.F, esrc.Steps, g.Type(), m.Type(), true, codecs)
+		dx := c12ClassifyInl(c, dec.F, dsrc.Steps, m.Type(), g.Type(), false, codecs)
 		switch {
 		case ex.kind == "lossy" || dx.kind == "lossy":
 			v.Status = "violation"
@@ -463,8 +465,15 @@ func c12ReportPair(c *kit.Ctx, r *kit.Rule, p *c12Pair, codecs map[types.Object]
 	}
 	// extraction problems that do not prevent a map make every field undecided
 	var probs []string
-	probs = append(probs, p.Enc[0].Map.Problems...)
-	probs = append(probs, p.Dec[0].Map.Problems...)
+	c12HelperMu.Lock()
+	resolved := c12ResolvedOf(c.P)
+	for _, pr := range append(append([]string{}, p.Enc[0].Map.Problems...), p.Dec[0].Map.Problems...) {
+		// remarks about an element helper that its summary has answered (c12_wrap.go)
+		if !resolved[pr] {
+			probs = append(probs, pr)
+		}
+	}
+	c12HelperMu.Unlock()
 	for _, v := range vs {
 		var node ast.Node
 		if v.Site == p.Enc[0].F && p.Enc[0].Map.Lit != nil {
@@ -640,7 +649,7 @@ func c12StepsKey(steps []kit.FieldStep) string {
 // path.  For an integer parameter the values reaching each return are
 // computed (value-mode interval analysis), so that "returns time.Now() when
 // ns == 0" is a witnessed loss, not a guess.
-func c12SummariseHelper(c *kit.Ctx, fn *kit.Func) *c12Helper {
+func c12SummariseHelper(c *kit.Ctx, fn *kit.Func, codecs map[types.Object]*c12Codec) *c12Helper {
 	c12HelperMu.Lock()
 	hm := c12HelperMemoOf(fn)[fn]
 	c12HelperMu.Unlock()
@@ -670,6 +679,20 @@ func c12SummariseHelper(c *kit.Ctx, fn *kit.Func) *c12Helper {
 			if why != "" {
 				h.why = "helper " + fn.Name + ": " + why
 				return h
+			}
+			// the list converter is where the element codec is called: nothing
+			// else in it may write the elements (c12_wrap.go)
+			for _, st := range steps {
+				if cd := codecs[st.Callee]; cd != nil && (st.Kind == "call" || st.Kind == "method") {
+					switch status, why := c12InlineEdits(fn, st, cd); status {
+					case "lossy":
+						h.status, h.why = "lossy", why
+						return h
+					case "unknown":
+						h.why = why
+						return h
+					}
+				}
 			}
 			h.status, h.steps = "ok", steps
 			return h
@@ -837,15 +860,27 @@ func c12SummariseHelper(c *kit.Ctx, fn *kit.Func) *c12Helper {
 }
 
 // c12ClassifyInl replaces calls of one-parameter module helpers in the chain
-// by their summary, then classifies.
-func c12ClassifyInl(c *kit.Ctx, steps []kit.FieldStep, from, to types.Type, enc bool, codecs map[types.Object]*c12Codec) c12Xform {
+// by their summary, and calls of element helpers (c12_wrap.go) by the element
+// codec they stand for, then classifies.  site is the codec function the
+// chain was extracted from.
+func c12ClassifyInl(c *kit.Ctx, site *kit.Func, steps []kit.FieldStep, from, to types.Type, enc bool, codecs map[types.Object]*c12Codec) c12Xform {
 	for round := 0; round < 4; round++ {
 		changed := false
 		var out []kit.FieldStep
 		for _, st := range steps {
+			// an element codec called here: nothing else in this function may write the element
+			if cd := codecs[st.Callee]; cd != nil && cd.Enc == enc && (st.Kind == "call" || st.Kind == "method") {
+				switch status, why := c12InlineEdits(site, st, cd); status {
+				case "lossy":
+					return c12Xform{kind: "lossy", why: why}
+				case "unknown":
+					return c12Xform{kind: "unknown", why: why}
+				}
+			}
+			helperWhy := ""
 			if st.Kind == "call" && st.Arg == 0 && st.Result == 0 && len(st.Consts) == 0 && codecs[st.Callee] == nil {
 				if fn := c.P.FuncOf(st.Callee); fn != nil && fn.Body != nil {
-					h := c12SummariseHelper(c, fn)
+					h := c12SummariseHelper(c, fn, codecs)
 					switch h.status {
 					case "lossy":
 						return c12Xform{kind: "lossy", why: h.why}
@@ -854,9 +889,30 @@ func c12ClassifyInl(c *kit.Ctx, steps []kit.FieldStep, from, to types.Type, enc 
 						changed = true
 						continue
 					default:
-						return c12Xform{kind: "unknown", why: h.why}
+						helperWhy = h.why
 					}
 				}
+			}
+			if w, is := c12WrapStep(c, st, enc, codecs); is {
+				switch w.status {
+				case "lossy":
+					return c12Xform{kind: "lossy", why: w.why}
+				case "pure":
+					kind := "call"
+					if sg := w.cd.F.Signature(); sg != nil && sg.Recv() != nil {
+						kind = "method"
+					}
+					out = append(out, kit.FieldStep{Kind: kind, Callee: w.cd.F.Obj, Call: w.call})
+					changed = true
+					continue
+				default:
+					if helperWhy == "" {
+						helperWhy = w.why
+					}
+				}
+			}
+			if helperWhy != "" {
+				return c12Xform{kind: "unknown", why: helperWhy}
 			}
 			out = append(out, st)
 		}
